@@ -85,8 +85,10 @@ Defaults(s, ver, a) ==
     ELSE LET f == Find(ChartOf(s, ver), a)
          IN  [k \in AllKeys |-> IF f.accepted /\ k \in MetaKeys THEN f.meta[k] ELSE "_"]
 
-Refuse(s,e)  == [ok |-> FALSE, err |-> e, st |-> s]
-Commit(s2)    == [ok |-> TRUE, err |-> "", st |-> s2]
+\* posted: the postings the accepted transaction records (<< >> for other requests / rejections)
+Refuse(s,e)  == [ok |-> FALSE, err |-> e, st |-> s, posted |-> << >>]
+Commit(s2)    == [ok |-> TRUE, err |-> "", st |-> s2, posted |-> << >>]
+CommitTx(s2, ps) == [ok |-> TRUE, err |-> "", st |-> s2, posted |-> ps]
 
 \* which schema a write runs under; lit = TRUE: as the property reads, FALSE: as the code reads (D1)
 Resolve(s, ver, lit) ==
@@ -112,10 +114,15 @@ SchemaOutcome(s, r) ==
     IF Known(s, r.v) THEN Refuse(s,"schema_exists")
     ELSE Commit([s EXCEPT !.sch[r.v] = [on |-> TRUE, chart |-> r.chart, tpls |-> r.tpls], !.nlogs = @ + 1])
 
-\* the postings a transaction request executes, or "none" when it cannot be executed
+\* A transaction request travels "direct" (POST /transactions) or as the single element of a bulk
+\* ("bulk" / "bulkatomic": POST /_bulk[?atomic=true]).  r.own: the request carries its own numscript
+\* next to the template id.  POST /transactions refuses that combination outright; a bulk element is
+\* not filtered, and the rule "a templated schema runs the TEMPLATE" decides: the template's postings
+\* are recorded, never the caller's script.
 TxOutcome(s, r, lit) ==
     LET rs == Resolve(s, r.ver, lit) IN
-    IF rs.rej THEN Refuse(s,rs.err)
+    IF r.own /\ r.via = "direct" THEN Refuse(s,"validation")
+    ELSE IF rs.rej THEN Refuse(s,rs.err)
     ELSE LET ver  == rs.ver
              hasT == ver # "" /\ s.sch[ver].tpls
          IN  IF hasT /\ r.tpl = "" /\ (s.mode = "strict" \/ ~lit) THEN Refuse(s,"validation")   \* D2 when audit
@@ -126,7 +133,7 @@ TxOutcome(s, r, lit) ==
                   IN  IF bad /\ s.mode = "strict" THEN Refuse(s,"validation")
                       ELSE LET accs == PostingAccounts(ps) \cup {x.a : x \in r.ameta}
                                s2   == Upsert(s, ver, accs, r.ameta)
-                           IN  Commit([s2 EXCEPT !.nlogs = @ + 1, !.ntx = @ + 1])
+                           IN  CommitTx([s2 EXCEPT !.nlogs = @ + 1, !.ntx = @ + 1], ps)
 
 MetaOutcome(s, r, lit) ==
     LET rs == Resolve(s, r.ver, lit) IN
@@ -149,10 +156,11 @@ Outcomes(s, r) ==
     LET lo == Outcome(s, r, TRUE)
         co == Outcome(s, r, FALSE)
     IN  IF Same(lo, co) \/ ~ModelDeviations
-        THEN {[ok |-> lo.ok, err |-> lo.err, st |-> lo.st, dev |-> "none", alt |-> [ok |-> lo.ok, err |-> lo.err, dev |-> "same"]]}
-        ELSE {[ok |-> lo.ok, err |-> lo.err, st |-> lo.st, dev |-> "none",
+        THEN {[ok |-> lo.ok, err |-> lo.err, st |-> lo.st, posted |-> lo.posted, dev |-> "none",
+               alt |-> [ok |-> lo.ok, err |-> lo.err, dev |-> "same"]]}
+        ELSE {[ok |-> lo.ok, err |-> lo.err, st |-> lo.st, posted |-> lo.posted, dev |-> "none",
                alt |-> [ok |-> co.ok, err |-> co.err, dev |-> DevName(s, r)]],
-              [ok |-> co.ok, err |-> co.err, st |-> co.st, dev |-> DevName(s, r),
+              [ok |-> co.ok, err |-> co.err, st |-> co.st, posted |-> co.posted, dev |-> DevName(s, r),
                alt |-> [ok |-> lo.ok, err |-> lo.err, dev |-> "none"]]}
 
 Reqs == SchemaMenu \cup TxMenu \cup MetaMenu
@@ -171,7 +179,7 @@ Init == /\ st \in {Init0(m) : m \in Modes}
         /\ hist = << >>
 
 StepRec(r, o) == [req |-> r, dev |-> o.dev,
-                  exp |-> [ok |-> o.ok, err |-> o.err] @@ Obs(o.st),
+                  exp |-> [ok |-> o.ok, err |-> o.err, posted |-> o.posted] @@ Obs(o.st),
                   alt |-> o.alt]
 
 Do(r, o) == /\ st' = o.st
@@ -247,6 +255,12 @@ P_StrictChartEnforced(r, o) == (st.mode = "strict" /\ r.k = "tx" /\ o.ok /\ r.ve
     LET ps == IF r.tpl # "" THEN TplDefs[r.tpl] ELSE r.post
     IN  /\ \A a \in PostingAccounts(ps) : Acc(st, r.ver, a)
         /\ st.sch[r.ver].tpls => r.tpl \in DOMAIN TplDefs
+\* what an accepted transaction records: the template's postings when a template is named (whatever
+\* script the request carries besides), else the request's postings; nothing for other requests
+P_TemplateDecidesPostings(r, o) ==
+    IF r.k = "tx" /\ o.ok
+    THEN o.posted = (IF r.tpl # "" THEN TplDefs[r.tpl] ELSE r.post) /\ o.posted # << >>
+    ELSE o.posted = << >>
 \* strict mode never needs the two-outcome escape
 P_StrictHasNoDeviation(r, o) == st.mode = "strict" => (Lit(o) /\ o.alt.dev = "same")
 
@@ -254,6 +268,7 @@ P_StrictHasNoDeviation(r, o) == st.mode = "strict" => (Lit(o) /\ o.alt.dev = "sa
 Unexecutable(s, r) ==
     \/ r.k = "schema" /\ Known(s, r.v)
     \/ r.k = "tx" /\ r.tpl # "" /\ ~(Known(s, r.ver) /\ s.sch[r.ver].tpls /\ r.tpl \in DOMAIN TplDefs)
+    \/ r.k = "tx" /\ r.own /\ r.via = "direct"
 \* audit mode accepts everything that can be executed (literal outcomes)
 P_AuditAcceptsAll(r, o) == (st.mode = "audit" /\ Lit(o)) => (o.ok <=> ~Unexecutable(st, r))
 \* the same statement about ALL outcomes: expected to be VIOLATED when ModelDeviations = TRUE (D1, D2);
@@ -275,11 +290,13 @@ StrictHasNoDeviation   == ForAllOutcomes(P_StrictHasNoDeviation)
 AuditAcceptsAll        == ForAllOutcomes(P_AuditAcceptsAll)
 AuditAcceptsAll_AsRead == ForAllOutcomes(P_AuditAcceptsAll_AsRead)
 AuditRelaxesStrict     == ForAllOutcomes(P_AuditRelaxesStrict)
+TemplateDecidesPostings == ForAllOutcomes(P_TemplateDecidesPostings)
 
 \* all theorems in one pass over the outcomes (used by the simulation configurations)
 P_All(r, o) == /\ P_NoEffectOnReject(r, o) /\ P_OneLogPerWrite(r, o) /\ P_DefaultsOnlyAtCreation(r, o)
                /\ P_NoAccountDeleted(r, o) /\ P_StrictRequiresVersion(r, o) /\ P_StrictChartEnforced(r, o)
                /\ P_StrictHasNoDeviation(r, o) /\ P_AuditAcceptsAll(r, o) /\ P_AuditRelaxesStrict(r, o)
+               /\ P_TemplateDecidesPostings(r, o)
 AllTheorems == ForAllOutcomes(P_All)
 
 TypeOK == /\ st.mode \in Modes
